@@ -1,0 +1,169 @@
+//! Seams for deterministic simulation of the server (compiled only with `--cfg pavex_verif`).
+//!
+//! Nothing in here changes what the server does: when no simulator has been installed on the
+//! current thread every function below is a no-op and the `Real` variants of the socket types
+//! forward to `tokio::net`.
+//!
+//! A simulator that *is* installed (thread-local, by the verification harness) takes over:
+//!
+//! - thread creation: `Worker::spawn` / `Acceptor::spawn` hand their `run()` future to
+//!   [`Hooks::spawn_thread`] instead of `std::thread`;
+//! - sockets: an [`IncomingStream`](super::IncomingStream) can be built from a [`SimListener`];
+//! - scheduling: [`preempt`] is called between every pair of consecutive cross-thread channel
+//!   operations. It is a plain synchronous call: the simulator may run *other* simulated
+//!   threads on the caller's stack before returning, which is what being descheduled between
+//!   two instructions looks like to the preempted thread;
+//! - observation: [`event`] tells the simulator what happened to a connection.
+use std::cell::RefCell;
+use std::future::Future;
+use std::io;
+use std::net::SocketAddr;
+use std::pin::Pin;
+use std::rc::Rc;
+use std::task::{Context, Poll};
+
+use tokio::io::{AsyncRead, AsyncWrite, ReadBuf};
+
+/// A simulated, in-memory connection.
+pub trait SimIo: AsyncRead + AsyncWrite + Send + Unpin {}
+
+impl<T> SimIo for T where T: AsyncRead + AsyncWrite + Send + Unpin {}
+
+/// A simulated listening socket.
+pub trait SimListener: Send + Sync {
+    fn poll_accept(&self, cx: &mut Context<'_>) -> Poll<io::Result<(Box<dyn SimIo>, SocketAddr)>>;
+    fn local_addr(&self) -> io::Result<SocketAddr>;
+}
+
+/// Stand-in for `tokio::net::TcpStream`.
+pub enum TcpStream {
+    Real(tokio::net::TcpStream),
+    Sim(Box<dyn SimIo>),
+}
+
+impl AsyncRead for TcpStream {
+    fn poll_read(
+        self: Pin<&mut Self>,
+        cx: &mut Context<'_>,
+        buf: &mut ReadBuf<'_>,
+    ) -> Poll<io::Result<()>> {
+        match self.get_mut() {
+            TcpStream::Real(s) => Pin::new(s).poll_read(cx, buf),
+            TcpStream::Sim(s) => Pin::new(s).poll_read(cx, buf),
+        }
+    }
+}
+
+impl AsyncWrite for TcpStream {
+    fn poll_write(
+        self: Pin<&mut Self>,
+        cx: &mut Context<'_>,
+        buf: &[u8],
+    ) -> Poll<io::Result<usize>> {
+        match self.get_mut() {
+            TcpStream::Real(s) => Pin::new(s).poll_write(cx, buf),
+            TcpStream::Sim(s) => Pin::new(s).poll_write(cx, buf),
+        }
+    }
+
+    fn poll_flush(self: Pin<&mut Self>, cx: &mut Context<'_>) -> Poll<io::Result<()>> {
+        match self.get_mut() {
+            TcpStream::Real(s) => Pin::new(s).poll_flush(cx),
+            TcpStream::Sim(s) => Pin::new(s).poll_flush(cx),
+        }
+    }
+
+    fn poll_shutdown(self: Pin<&mut Self>, cx: &mut Context<'_>) -> Poll<io::Result<()>> {
+        match self.get_mut() {
+            TcpStream::Real(s) => Pin::new(s).poll_shutdown(cx),
+            TcpStream::Sim(s) => Pin::new(s).poll_shutdown(cx),
+        }
+    }
+}
+
+/// Stand-in for `tokio::net::TcpListener`.
+pub enum TcpListener {
+    Real(tokio::net::TcpListener),
+    Sim(Box<dyn SimListener>),
+}
+
+impl TcpListener {
+    pub fn from_std(listener: std::net::TcpListener) -> io::Result<Self> {
+        tokio::net::TcpListener::from_std(listener).map(Self::Real)
+    }
+
+    pub fn local_addr(&self) -> io::Result<SocketAddr> {
+        match self {
+            TcpListener::Real(l) => l.local_addr(),
+            TcpListener::Sim(l) => l.local_addr(),
+        }
+    }
+
+    pub async fn accept(&self) -> io::Result<(TcpStream, SocketAddr)> {
+        match self {
+            TcpListener::Real(l) => l.accept().await.map(|(s, a)| (TcpStream::Real(s), a)),
+            TcpListener::Sim(l) => std::future::poll_fn(|cx| l.poll_accept(cx))
+                .await
+                .map(|(s, a)| (TcpStream::Sim(s), a)),
+        }
+    }
+}
+
+impl From<tokio::net::TcpListener> for TcpListener {
+    fn from(l: tokio::net::TcpListener) -> Self {
+        Self::Real(l)
+    }
+}
+
+/// The body of a simulated thread: called once, on the simulator's thread, to obtain the future
+/// the real thread would have driven to completion on its own runtime.
+pub type ThreadBody = Box<dyn FnOnce() -> Pin<Box<dyn Future<Output = ()>>> + Send>;
+
+/// What the simulator provides.
+pub struct Hooks {
+    pub spawn_thread: Box<dyn Fn(String, ThreadBody)>,
+    pub preempt: Box<dyn Fn(&'static str)>,
+    pub event: Box<dyn Fn(&'static str, Option<SocketAddr>)>,
+}
+
+thread_local! {
+    static HOOKS: RefCell<Option<Rc<Hooks>>> = const { RefCell::new(None) };
+}
+
+/// Install a simulator on the current thread.
+pub fn install(hooks: Hooks) {
+    HOOKS.with(|h| *h.borrow_mut() = Some(Rc::new(hooks)));
+}
+
+/// Remove the simulator installed on the current thread, if any.
+pub fn uninstall() {
+    HOOKS.with(|h| *h.borrow_mut() = None);
+}
+
+fn current() -> Option<Rc<Hooks>> {
+    HOOKS.with(|h| h.borrow().clone())
+}
+
+pub(super) fn is_installed() -> bool {
+    HOOKS.with(|h| h.borrow().is_some())
+}
+
+pub(super) fn spawn_thread(name: String, body: ThreadBody) {
+    let hooks = current().expect("no simulator installed");
+    (hooks.spawn_thread)(name, body);
+}
+
+/// A point at which a real thread could be descheduled between two cross-thread operations.
+#[inline]
+pub(super) fn preempt(label: &'static str) {
+    if let Some(hooks) = current() {
+        (hooks.preempt)(label);
+    }
+}
+
+#[inline]
+pub(super) fn event(label: &'static str, peer: Option<SocketAddr>) {
+    if let Some(hooks) = current() {
+        (hooks.event)(label, peer);
+    }
+}
